@@ -3,6 +3,7 @@ package lang
 import (
 	"fmt"
 	"os"
+	"strings"
 	"testing"
 
 	"github.com/martian-lang/martian/martian/syntax"
@@ -22,6 +23,16 @@ func TestMain(m *testing.M) {
 // against known_findings.json.
 func fail(t *rapid.T, prop, key, format string, args ...any) {
 	t.Helper()
+	if dir := os.Getenv("VERIF_SURVEY"); dir != "" {
+		// survey mode (development aid): record each distinct key once and
+		// carry on, to see what lies behind the first failure.
+		stats.Count(prop, "survey:"+key, 1)
+		name := dir + "/" + strings.NewReplacer("/", "_", ":", "_", " ", "_").Replace(key) + ".txt"
+		if _, err := os.Stat(name); err != nil {
+			os.WriteFile(name, []byte(fmt.Sprintf(format, args...)), 0o644)
+		}
+		return
+	}
 	t.Fatalf("VKEY=%s/%s %s", prop, key, fmt.Sprintf(format, args...))
 }
 
